@@ -77,7 +77,7 @@ func c03Types() []c03Type {
 var c03Rules = []string{
 	"to=1~3", "ge=2", "le=2", "oto=1~3", "gt=1", "lt=3", "eq=2", "noeq=2", "in=(a/b/5)", "include=(ab/cd)", "phone", "email", "idcard", "year", "year2month", "year2month=/",
 	"date", "date=/", "datetime", "datetime='/, ,:'", "int", "ints", "ints=-", "float", "re='^a+$'", "ip", "ipv4", "ipv6", "unique", "json", "prefix=ab", "suffix=bc", "file", "dir",
-	"exist", "to=5", "oto=a~b", "in=1/2", "to=1~3|m1", "phone|说明一", "eq=9|m2",
+	"exist", "to=5", "oto=a~b", "in=1/2", "to=1~3|m1", "phone|说明一", "eq=9|m2", "required2", "required_if=x|m3", "requiredPair",
 }
 
 func c03Case(ty c03Type, st c03State, rules []string, carrier string, missing bool) *ScalarCase {
